@@ -1413,9 +1413,18 @@ class Evaluator:
                 return ("booland", ("cmp", "Le", lo, x), upper)
         if re.search(r"slice::<impl \[T\]>::chunks$", c) and len(args) == 2:
             return ("chunks", args[0], args[1])
+        if re.search(r"slice::<impl \[T\]>::chunks_exact$", c) and len(args) == 2:
+            # like chunks, but a final partial chunk is left out
+            return ("chunks", args[0], args[1], "exact")
+        if re.search(r"slice::<impl \[T\]>::split_at$", c) and len(args) == 2:
+            # s.split_at(k) = (&s[..k], &s[k..]): written as the two index expressions (panics unless k <= s.len(), like the indexing would)
+            s_, k_ = args
+            entry["panics_if"] = ("cmp", "Gt", k_, ("len", s_))
+            return ("tuple", (("call", "<[T] as std::ops::Index<std::ops::Range<usize>>>::index", (s_, mk_struct("std::ops::Range", {"start": const(0), "end": k_}))),
+                              ("call", "<[T] as std::ops::Index<std::ops::RangeFrom<usize>>>::index", (s_, mk_struct("std::ops::RangeFrom", {"start": k_})))))
         if re.search(r"IntoIterator>?::into_iter$", c) and len(args) == 1 and tag(args[0]) == "chunks":
             return args[0]
-        if re.search(r"(iter::Iterator for (std|core)::slice::Chunks<.*>>::next|<(std|core)::slice::Chunks<.*> as (std|core)::iter::Iterator>::next)$", c) and len(args) == 1:
+        if re.search(r"(iter::Iterator for (std|core)::slice::Chunks(Exact)?<.*>>::next|<(std|core)::slice::Chunks(Exact)?<.*> as (std|core)::iter::Iterator>::next)$", c) and len(args) == 1:
             r = self._deref_val(args[0]) if tag(args[0]) == "ref" else args[0]
             if tag(args[0]) == "ref" and args[0][1][0] == "loc":
                 tgt = args[0][1]
@@ -1423,7 +1432,7 @@ class Evaluator:
                 r = self._walk_value(cur, tgt[3]) if cur is not None else None
             if tag(r) == "chunks":
                 # the contract of slice::chunks: consecutive, gap-free sub-slices of r[1] in order, None once it is exhausted
-                return ("chunksnext", r[1], r[2])
+                return ("chunksnext", r[1], r[2]) + tuple(r[3:])
             self._invalidate(args)
             return ("call", c, tuple(args))
         if re.search(r"Option::<.*>::filter$", c) and len(args) == 2:
